@@ -364,6 +364,10 @@ def instFrom (priv : Nat → Bool) (N : Nat) : Nat → List (List Step) → List
   | _, [] => []
   | i, p :: rest => renameProg (cellMap priv N i) p :: instFrom priv N (i + 1) rest
 
+/-- the initial store of instantiated programs: the shared cell and every private copy of `c` start with what the
+    Field object `c` holds (a copy is made from the object of the class definition) -/
+def instStore (N : Nat) (sh : Shared) : Shared := fun x => if x % 2 = 0 then sh (x / 2) else sh ((x / 2) / N)
+
 /-- the table has a row for site `key` whose written value differs between threads and is read back -/
 def siteRacy (tbl : List SharedWrite) (key : String) : Bool :=
   tbl.any fun r => r.key == key && !r.safe && r.readBack
